@@ -497,3 +497,7 @@ def char_in_token(s, a, tok, b, i):
 
 def lstrip_noop(d, ch):
     return d[0:1] == ch or d.lstrip(ch) == d
+
+
+def call_kwarg_names(name):
+    raise NotImplementedError("call_kwarg_names() is a symbolic-only builtin")
